@@ -40,6 +40,7 @@ func checkC03(c *Ctx) {
 	c03Decode(c)
 	c03Arrays(c)
 	c03Passthrough(c)
+	c03QueueAnswered(c)
 }
 
 // ------------------------------------------------------------------ R-error-passthrough / R-fresh-message
@@ -1524,4 +1525,100 @@ func nonNilSlice(v ssa.Value, depth int) bool {
 		return false
 	}
 	return false
+}
+
+// ---------------------------------------------------------------- R-queue-answered
+// Transports that answer through a per-session queue instead of an http.ResponseWriter (legacy SSE): in the function
+// that dispatches a decoded request, every path from the dispatch to the function's exit hands a frame to the
+// session's queue — directly (a select with a send on a channel field) or through a callee that does so on all of its
+// own paths. A path that only logs (e.g. "could not encode the response") leaves the caller without any answer.
+func c03QueueAnswered(c *Ctx) {
+	// summary: functions in which every path from entry to a return enqueues
+	sum := map[*ssa.Function]bool{}
+	enqHere := func(in ssa.Instruction) bool {
+		switch x := in.(type) {
+		case *ssa.Select:
+			for _, st := range x.States {
+				if st.Dir == types.SendOnly {
+					if _, _, ok := ir.LoadedField(st.Chan); ok {
+						return true
+					}
+				}
+			}
+		case *ssa.Send:
+			if _, _, ok := ir.LoadedField(x.Chan); ok {
+				return true
+			}
+		case *ssa.Call:
+			for _, cal := range ir.Callees(c.G, x) {
+				if sum[cal] {
+					return true
+				}
+			}
+		}
+		return false
+	}
+	var cands []*ssa.Function
+	for _, fn := range c.P.LibFns {
+		if serverSide(c, fn) && !hasWriterParam(fn) && len(fn.Blocks) > 0 {
+			cands = append(cands, fn)
+		}
+	}
+	for iter := 0; iter < 10; iter++ {
+		changed := false
+		for _, fn := range cands {
+			if sum[fn] {
+				continue
+			}
+			has := false
+			ir.EachInstr(fn, func(_ *ssa.BasicBlock, _ int, in ssa.Instruction) {
+				if enqHere(in) {
+					has = true
+				}
+			})
+			if !has {
+				continue
+			}
+			if flow.ExitsAvoiding(fn, nil, enqHere, false) == nil {
+				sum[fn] = true
+				changed = true
+			}
+		}
+		if !changed {
+			break
+		}
+	}
+	n := 0
+	for _, fn := range cands {
+		ir.EachInstr(fn, func(_ *ssa.BasicBlock, _ int, in ssa.Instruction) {
+			call, ok := in.(*ssa.Call)
+			if !ok || !c.isDispatchCall(call) {
+				return
+			}
+			// only transports that answer through a queue: the function (or its callees) enqueues at all
+			uses := false
+			for f := range c.ReachSync(fn) {
+				ir.EachInstr(f, func(_ *ssa.BasicBlock, _ int, in2 ssa.Instruction) {
+					if sel, ok := in2.(*ssa.Select); ok {
+						for _, st := range sel.States {
+							if st.Dir == types.SendOnly {
+								if _, _, ok := ir.LoadedField(st.Chan); ok {
+									uses = true
+								}
+							}
+						}
+					}
+				})
+			}
+			if !uses {
+				return
+			}
+			n++
+			esc := flow.ExitsAvoiding(fn, call, enqHere, false)
+			c.R.Check(esc == nil, "R-queue-answered", "answer enqueued after dispatch in "+fname(fn), c.Pos(call.Pos()),
+				"every path from the dispatch to the exit hands a frame to the session's queue",
+				sprintf("%s can return (near %s) after dispatching a request without handing any frame to the session's queue: the request gets no answer at all (not even -32603)", fname(fn), iposEsc(c, esc)))
+		})
+	}
+	c.R.Min("R-queue-answered", 1)
 }
